@@ -210,6 +210,7 @@ func main() {
 	emitList(&sb, "instanceWrites", "type.field: instance fields written after construction (through a receiver or struct-pointer parameter of a function that is neither a constructor nor init-time)", split(sc.InstWrites, ""), false, "")
 	emitList(&sb, "sharedTypes", "library struct types of which an instance is reachable (by type) from a package-level variable", split(sc.SharedTypes, ""), false, "")
 	emitList(&sb, "sharedTypeWrites", "(function, type.field): a field of a shared type is written after construction (lazily built tables, scratch fields of shared objects)", split(sc.SharedTypeWrites, " ~> "), true, " ~> ")
+	emitList(&sb, "aliasFieldWrites", "(function, type.field): the backing store of a slice/map/pointer field of a receiver / struct-pointer parameter is written or handed on through a local alias (informational; the entries on shared types are part of sharedTypeWrites)", split(sc.AliasFieldWrites, " ~> "), true, " ~> ")
 	emitList(&sb, "syncUses", "(declaration, sync.X): mentions of package sync / sync/atomic", split(sc.SyncUses, ": "), true, ": ")
 	emitList(&sb, "goStmts", "functions containing a go statement", split(sc.GoStmts, ""), false, "")
 	emitList(&sb, "chanOps", "functions using channels", split(sc.ChanOps, ""), false, "")
